@@ -345,10 +345,16 @@ def pin(index, rep, flow):
     ok = got_r1 is not None and norm_src(got_r1) == r1_results
     rep.check(ok, rule, "hand-off:from-round1-results", "the hand-off is not computed from round 1's results", loc=loc(PARAMS, c2r))
     call1 = [x for x in walk_no_nested(rr2) if isinstance(x, ast.Call) and isinstance(x.func, ast.Attribute) and x.func.attr == "compute_parameters_second_round"]
-    rr2_names = _rp(rr2, ["constants_loader", "constants_for_params", "interpreted_results_round1", "percent_fed_from_model_round1",
-                          "consts_for_optimizer_round1", "time_consts_round1"])
+    from .core import pos_of as _pos
+    rr2_params = [a.arg for a in rr2.args.args][1:]
+
+    def rr2_name(name, ref_index):
+        i_ = _pos(rr2, name, ref_index, 8)
+        return rr2_params[i_] if i_ is not None and i_ < len(rr2_params) else None
+    want4 = [rr2_name("constants_for_params", 1), rr2_name("consts_for_optimizer_round1", 4), rr2_name("time_consts_round1", 5),
+             rr2_name("interpreted_results_round1", 2)]
     got4 = _abn(call1[0], c2r, ["constants_inputs", "constants_out_round1", "time_consts_round1", "interpreted_results_round1"]) if len(call1) == 1 else [None]
-    ok = None not in got4 and [norm_src(a) for a in got4] == [rr2_names[1], rr2_names[4], rr2_names[5], rr2_names[2]]
+    ok = None not in got4 and None not in want4 and [norm_src(a) for a in got4] == want4
     rep.check(ok, rule, "round2:parameters-from-round1", "compute_parameters_second_round does not receive round 1's constants and results by position",
               loc=loc(RUN, rr2))
     rep.require_min(rule, 6)
